@@ -16,7 +16,7 @@ Mechanisms: {json.dumps(p['anchors'].get('mechanism', []))}
 What to produce:
 1. A change to the library source (not to tests) in {wt} that violates the property. Prefer a change that needs something specific to manifest — an unusual input or shape (e.g. a particular rank/limb count/radix/thread count/truncation point), a multi-step sequence of operations, a particular interleaving, or two cooperating sites that each look fine alone — NOT one that ordinary use would expose at once. It should look like a plausible maintainer mistake or over-eager optimisation (a few lines), not sabotage. {extra}
 2. The change must still compile (`cargo build --workspace --offline` in {wt}) and the EXISTING test suite must still pass with it: run `cargo test --workspace --offline --no-fail-fast 2>&1 | tail -40` in {wt} (takes several minutes; to save time you may first `cp -r /repo/target {wt}/target` to reuse dependency builds; use at most 6 parallel jobs: `-j 6`). If some test fails with your change, pick a different change. (If you want, confirm the baseline passes before you edit.)
-3. A demonstration: a NEW test file or small program (e.g. an integration test under the relevant crate's `tests/` directory, or an example) that FAILS with your change and PASSES without it (verify both: run it with the change, then `git stash` the source change, run it again, `git stash pop`). The demonstration should exercise the public API and check the property directly.
+3. A demonstration: a NEW test file or small program (e.g. an integration test under the relevant crate's `tests/` directory, or an example) that FAILS with your change and PASSES without it (verify both: run it with the change, then save the source change with `git diff -- '*.rs' ':!*/tests/*' > {wt}/seed.patch`, undo it with `git apply -R {wt}/seed.patch`, run the demonstration again, and re-apply it with `git apply {wt}/seed.patch`; do NOT use `git stash` - the stash is shared with other worktrees). The demonstration should exercise the public API and check the property directly.
 4. Leave the worktree with the source change and the demonstration applied (uncommitted is fine). Then report back, concisely: (a) `git -C {wt} diff` restricted to library source (the seeded change), (b) the path(s) of the demonstration file(s) you added and the exact command to run it, (c) its output with and without the change (last lines), (d) the result of the full existing test suite with the change (the final 'test result' lines), (e) one paragraph: what the change needs in order to manifest and why the existing tests miss it.
 
 Constraints: do not modify existing tests; do not add dependencies; keep the change small; do not touch /repo or /verif; do not delete the worktree.""")
